@@ -105,6 +105,7 @@ def kf7_junit_surrogate():
             junit.handle_event(ctx, events.EngineFinished(running_time=1.0))
         except Exception as exc:  # noqa: BLE001
             return f"JunitXMLHandler raised {type(exc).__name__}: {exc}"
+        junit.file_handle.close()  # (the finding is fixed in /repo: the "ok" path is taken now and needs the flushed file)
         return "ok: " + str(len(ET.parse(junit.file_handle.name).getroot()))
 
 
@@ -123,3 +124,56 @@ if __name__ == "__main__":
           "| infix:", yaml.safe_load(cassette(recorder("GET /a", req_headers={"X-a\\b": "v"})))["http_interactions"][0]["request"]["headers"])
     print('KF-C16-10 response header name with ":', parses(cassette(recorder("GET /a", resp_headers={'x-"a"': ["v"]}))))
     print("KF-C16-11 response header name with \\:", parses(cassette(recorder("GET /a", resp_headers={"x-\\": ["v"]}))))
+
+
+# ---- review round 2 (KF-C16-R1 .. R5); each reproduction is self-contained apart from the helpers above -------------------------
+
+
+def _rec2(label="GET /a", headers=None, encoding=None, fail=True):
+    case = SCHEMA["/a"]["GET"].Case(meta=META)
+    prepared = requests.Request("GET", "http://h.local/a").prepare()
+    rec = ScenarioRecorder(label=label)
+    rec.record_case(parent_id=None, transition=None, case=case)
+    # encoding = what requests derives from `Content-Type: text/plain; charset=<encoding>` (Response.from_requests copies it)
+    rec.record_response(case_id=case.id, response=Response(500, headers or {}, b"abc", prepared, 0.1, True, "ISE", encoding=encoding))
+    if fail:
+        rec.record_check_failure(name="c", case_id=case.id, code_sample="curl", failure=Failure(operation=label, title="Server error", message="m"))
+    return rec
+
+
+def _junit(rec):
+    ctx = ExecutionContext()
+    with tempfile.TemporaryDirectory() as tmp:
+        junit = JunitXMLHandler(LazyFile(os.path.join(tmp, "j.xml"), mode="w", encoding="utf-8"))
+        try:
+            for event in (finished(rec, Status.FAILURE), events.EngineFinished(running_time=1.0)):
+                ctx.on_event(event)
+                junit.handle_event(ctx, event)
+        except Exception as exc:  # noqa: BLE001
+            return f"JunitXMLHandler raised {type(exc).__name__}: {exc} on {type(event).__name__} -> run aborted, junit.xml empty"
+        return "ok"
+
+
+def _cassette2(rec, fmt, preserve):
+    with tempfile.TemporaryDirectory() as tmp:
+        path = LazyFile(os.path.join(tmp, "c"), mode="w", encoding="utf-8")
+        sys.stderr = io.StringIO()
+        writer = CassetteWriter(format=fmt, path=path, sanitize_output=False, preserve_bytes=preserve)
+        ctx = ExecutionContext(seed=1)
+        writer.start(ctx), writer.handle_event(ctx, finished(rec)), writer.shutdown(ctx), writer.worker.join()
+        sys.stderr = sys.__stderr__
+        path.close()
+        return open(path.name, "rb").read()
+
+
+if __name__ == "__main__":
+    ct = {"Content-Type": ["text/plain; charset=zzz"]}
+    print("KF-C16-R1 response declares an unknown charset:", _junit(_rec2(headers=ct, encoding="zzz")))
+    data = _cassette2(_rec2(headers=ct, encoding="zzz"), ReportFormat.VCR, False)
+    print("KF-C16-R2 same response, VCR writer thread died with LookupError: cassette ends after", repr(data.decode()[-40:]), "|", parses(data),
+          "| has response body:", b"string:" in data)
+    data = _cassette2(_rec2(headers={"Content-Type": ["text/plain; charset=a'b"]}, encoding="a'b"), ReportFormat.VCR, True)
+    print("KF-C16-R3 charset with a quote, preserve_bytes on:", parses(data), "|", [ln.strip() for ln in data.decode().splitlines() if "encoding:" in ln])
+    har = json.loads(_cassette2(_rec2(headers={"Set-Cookie": ["a=1", "b=2"]}), ReportFormat.HAR, False))
+    print("KF-C16-R4 two Set-Cookie values received, HAR response headers:", har["log"]["entries"][0]["response"]["headers"])
+    print("KF-C16-R5 operation label with U+FFFF (path key of a JSON schema):", _junit(_rec2(label="GET /a￿")))
